@@ -13,6 +13,9 @@ mod choices;
 mod common;
 mod des;
 mod fam_block;
+mod fam_hostile;
+mod fam_sink;
+mod fam_wire;
 mod gen;
 mod json;
 mod oracle_block;
@@ -98,12 +101,67 @@ fn props() -> Vec<PropCfg> {
             real: REAL_BLOCK,
             stub: STUB_BLOCK,
         },
+        PropCfg {
+            id: "C02",
+            family: "wire",
+            level: "exploration",
+            quick_runs: 150_000,
+            thorough_runs: 2_000_000,
+            rule: WIRE_RULE,
+            assumptions: WIRE_ASSUME,
+            real: REAL_BLOCK,
+            stub: STUB_WIRE,
+        },
+        PropCfg {
+            id: "C03",
+            family: "wire",
+            level: "exploration",
+            quick_runs: 150_000,
+            thorough_runs: 2_000_000,
+            rule: WIRE_RULE,
+            assumptions: WIRE_ASSUME,
+            real: REAL_BLOCK,
+            stub: STUB_WIRE,
+        },
+        PropCfg {
+            id: "C11",
+            family: "hostile",
+            level: "exploration",
+            quick_runs: 300_000,
+            thorough_runs: 5_000_000,
+            rule: "One evaluation = one seeded simulated run of the `hostile` family: 1-3 hostile senders with 1-8 parseable adversarial requests each (option bloat 0-1400 bytes, Block1/Block2 with num in {0,1,2,16,17,100,1023..1025,4095} x szx 0-7 x more, malformed block option bytes, payloads 0-1200, all four message types, unknown methods, invalid UTF-8 paths), adversarial application replies (large options, own Block2, bodies 0-10000), budgets {0..64, 1152, 0..5000, request overhead+11/+12/+13, overhead+12+2^k+-1}, mixed into cooperative transfers on the same keys (half of the hostile lanes share a cooperative client's endpoint), with link corruption on. Every handler entry is wrapped in catch_unwind; hook snapshots of the per-key upload buffer are taken around every intercept_request. Distinct non-trivial = distinct abstract descriptors of hostile or corrupted requests fed to the handler: (type, method, Block1 class, Block2 class, payload bucket, overhead+12 vs budget relation, overhead>1280, handler outcome).",
+            assumptions: &["uses the cfg(coap_lite_verif) snapshot hook for the buffer-growth clauses", "sampling: a clean batch is evidence, not proof"],
+            real: REAL_BLOCK,
+            stub: STUB_WIRE,
+        },
+        PropCfg {
+            id: "C18",
+            family: "sink",
+            level: "fault_enumeration",
+            quick_runs: 30_000,
+            thorough_runs: 1_000_000,
+            rule: "Documents (0-4 links x 0-4 attributes, all four attribute writers, values over an alphabet of quotes, backslashes, separators, angle brackets, spaces, newlines and 2/3/4-byte characters, newline option on/off) are sampled by seed; for EACH document the fault space is swept completely: every index k of the write calls the fault-free run issues x {fail only call k, fail call k and all later ones, torn write: call k accepts a prefix on a char boundary then fails}. One evaluation = one faulted write of one document (plus one fault-free write per document). Distinct non-trivial = distinct (document, fault position k, fault mode) triples; distinct_secondary = distinct (kind of write call hit, mode, newline option, first/later link) classes.",
+            assumptions: &["exhaustive per sampled document, not over documents (coverage.exhaustive=false refers to the property)", "fmt::Write sinks fail only by returning Err from write_str"],
+            real: &["coap_lite::link_format::LinkFormatWrite / LinkAttributeWrite (link, attr, attr_quoted, attr_u32, attr_u16, finish)"],
+            stub: &["fmt::Write sink with injected failures (fail once / fail from / torn)", "document generator"],
+        },
     ]
 }
+
+const WIRE_RULE: &str = "One evaluation = one seeded simulated run of the `wire` family: block-wise traffic with option sets on the delta/length codec boundaries plus a byzantine sender crosses links that truncate, flip, set, insert, delete bytes and append garbage (1-2 steps per affected datagram); half of the clients sit behind a forwarding proxy that parses and re-serialises. The reference parser (three-valued verdict) is compared with Packet::from_bytes on every datagram any node parses (counters wire.ref.* give the number of datagrams). Distinct non-trivial = distinct datagram classes reached: hash of (reference verdict class, failing grammar production, nibble classes seen for delta and for length, option count capped at 6, TKL, marker presence, payload length capped at 3).";
+const WIRE_ASSUME: &[&str] = &[
+    "narrowed quantifier: byte strings reachable from generated well-formed traffic by <= 2 corruption steps, plus structured-random and raw random strings <= ~1600 bytes; the 64 KiB option corner is reached only in its truncated form",
+    "the reference parser was written from RFC 7252 section 3 independently of src/packet.rs",
+    "this is a weak fit for the technique (both properties are functions of one byte string); the simulator contributes the fault kinds that produce the inputs and the continuation into the real server pipeline",
+];
+const STUB_WIRE: &[&str] = &["network (SimNet incl. truncation / bit flip / byte set / insert / delete / tail garbage)", "forwarding proxy loop", "byzantine sender", "client state machines", "server loop glue", "application"];
 
 fn run_family(family: &str, ch: &mut Ch, verbose: bool) -> Result<Outcome, String> {
     match family {
         "blockwise" => Ok(fam_block::run(ch, verbose)),
+        "wire" => Ok(fam_wire::run(ch, verbose)),
+        "hostile" => Ok(fam_hostile::run(ch, verbose)),
+        "sink" => Ok(fam_sink::run(ch, verbose)),
         _ => Err(format!("unknown family {}", family)),
     }
 }
@@ -145,6 +203,7 @@ fn is_known(known: &[Known], v: &Violation) -> Option<usize> {
 struct Agg {
     stats: Stats,
     runs: u64,
+    units: u64,
     faulty_runs: u64,
     sim_ns: u128,
     nontrivial: BTreeSet<u64>,
@@ -160,6 +219,7 @@ impl Agg {
         Agg {
             stats: Stats::default(),
             runs: 0,
+            units: 0,
             faulty_runs: 0,
             sim_ns: 0,
             nontrivial: BTreeSet::new(),
@@ -173,6 +233,7 @@ impl Agg {
     fn merge(&mut self, o: Agg) {
         self.stats.merge(&o.stats);
         self.runs += o.runs;
+        self.units += o.units;
         self.faulty_runs += o.faulty_runs;
         self.sim_ns += o.sim_ns;
         self.nontrivial.extend(o.nontrivial);
@@ -221,6 +282,7 @@ fn batch(family: &str, prop: Option<&str>, base_seed: u64, runs: u64, threads: u
                         }
                     };
                     a.runs += 1;
+                    a.units += o.units;
                     a.faulty_runs += o.faulty_cfg as u64;
                     a.sim_ns += o.sim_ns as u128;
                     a.stats.merge(&o.stats);
@@ -386,6 +448,12 @@ fn cmd_run(args: &[String]) -> Result<i32, String> {
     let max_secs: Option<u64> = arg(args, "--max-secs").and_then(|s| s.parse().ok());
     let known = load_known(known_path)?;
 
+    let family_override = arg(args, "--family").map(|s| s.to_string());
+    let fam_static: &'static str = match family_override {
+        Some(f) => Box::leak(f.into_boxed_str()),
+        None => pc.family,
+    };
+    let pc = &PropCfg { id: pc.id, family: fam_static, level: pc.level, quick_runs: pc.quick_runs, thorough_runs: pc.thorough_runs, rule: pc.rule, assumptions: pc.assumptions, real: pc.real, stub: pc.stub };
     println!("coapsim: property={} family={} tier={} profile={} VERIF_SEED={} runs={} threads={} repo={}", prop_id, pc.family, tier, profile, seed, runs, threads, repo_rev());
     let t0 = Instant::now();
     let deadline = max_secs.map(|s| t0 + std::time::Duration::from_secs(s));
@@ -436,7 +504,8 @@ fn cmd_run(args: &[String]) -> Result<i32, String> {
     let probes: BTreeMap<String, u64> = agg.stats.m.iter().filter(|(k, _)| k.starts_with("probe.")).map(|(k, v)| (k[6..].to_string(), *v)).collect();
     let counters: BTreeMap<String, u64> = agg.stats.m.iter().filter(|(k, _)| !k.starts_with("probe.") && !k.starts_with("fault.")).map(|(k, v)| (k.to_string(), *v)).collect();
     let mut cov = J::obj()
-        .set("evaluations", J::u(agg.runs))
+        .set("evaluations", J::u(agg.units))
+        .set("simulated_runs", J::u(agg.runs))
         .set("distinct_nontrivial", J::u(agg.nontrivial.len() as u64))
         .set("rule", J::s(pc.rule))
         .set("samples", J::Arr(samples))
@@ -458,11 +527,11 @@ fn cmd_run(args: &[String]) -> Result<i32, String> {
         .set("violations_of_other_properties_seen", J::Obj(agg.other_props.iter().map(|(k, n)| (k.clone(), J::u(*n))).collect()))
         .set("replay_files", J::Arr(reported.iter().map(|p| J::s(p.clone())).collect()))
         .set("repo_rev", J::s(repo_rev()));
-    let mut evaluations = agg.runs;
+    let mut evaluations = agg.units;
     let mut violations = agg.new_viol.len() as u64;
     let mut wall_total = wall;
     // merge partial results of other profiles
-    let mut profiles = vec![J::obj().set("profile", J::s(profile)).set("evaluations", J::u(agg.runs)).set("distinct_nontrivial", J::u(agg.nontrivial.len() as u64)).set("wall_s", J::Num(wall))];
+    let mut profiles = vec![J::obj().set("profile", J::s(profile)).set("evaluations", J::u(agg.units)).set("distinct_nontrivial", J::u(agg.nontrivial.len() as u64)).set("wall_s", J::Num(wall))];
     for m in merge {
         if let Ok(text) = std::fs::read_to_string(m) {
             if let Ok(pj) = json::parse(&text) {
